@@ -223,21 +223,19 @@ Proof.
   - intros E. pose proof (f_equal (@length A) E) as X. rewrite skipn_length in X. cbn in X. lia.
 Qed.
 
-(* a beginning of the unit that ends inside the last section: not complete *)
-Lemma psi_complete_partial ptr fill front lst t P S' :
+(* a beginning of the unit that ends strictly inside a section: not complete *)
+Lemma psi_complete_partial ptr fill front lst after P S' :
   0 <= ptr -> Z.of_nat (length fill) = ptr -> Forall framed front -> framed lst ->
-  ptr :: fill ++ concat (front ++ [lst]) ++ repeat 255 t = P ++ S' ->
+  ptr :: fill ++ concat front ++ lst ++ after = P ++ S' ->
   1 + ptr + Z.of_nat (length (concat front)) < Z.of_nat (length P)
-    < 1 + ptr + Z.of_nat (length (concat (front ++ [lst]))) ->
+    < 1 + ptr + Z.of_nat (length (concat front)) + Z.of_nat (length lst) ->
   is_psi_complete_bytes P = Ok false.
 Proof.
   intros Hp Hfill Hall Hlst HU Hlen.
-  rewrite concat_app in HU, Hlen. cbn [concat] in HU, Hlen. rewrite app_nil_r in HU, Hlen.
-  rewrite app_length in Hlen.
   set (A := ptr :: fill ++ concat front).
   assert (HA : Z.of_nat (length A) = 1 + ptr + Z.of_nat (length (concat front))).
   { unfold A. cbn [length]. rewrite app_length. lia. }
-  assert (HU' : A ++ lst ++ repeat 255 t = P ++ S').
+  assert (HU' : A ++ lst ++ after = P ++ S').
   { unfold A. cbn [app]. rewrite <- HU, <- !app_assoc. reflexivity. }
   destruct (prefix_inside A lst _ P S' HU' ltac:(lia)) as (Q & Q2 & HP & HL & HQ & HQ2).
   destruct Hlst as (tid & tl & rest & Elst & Htl & Hstop & Hland).
@@ -278,6 +276,18 @@ Proof.
     cbn [psi_walk ioff ibs]. unfold ilen. cbn [ibs].
     destruct (e + 1 + 2 + Z.of_nat (length rest) <? Z.of_nat (length P)) eqn:E4; [lia|]. cbn [negb ioff ibs].
     destruct (e + 1 + 2 + Z.of_nat (length rest) <=? Z.of_nat (length P)) eqn:E5; [lia|reflexivity].
+Qed.
+
+(* a beginning that ends before the first section: not complete *)
+Lemma psi_complete_short ptr tl P S' : 0 <= ptr -> ptr :: tl = P ++ S' -> Z.of_nat (length P) < 1 + ptr ->
+  is_psi_complete_bytes P = Ok false.
+Proof.
+  intros Hp HU Hlen. destruct P as [|b P']; [reflexivity|]. cbn [app] in HU. injection HU as <- _.
+  unfold is_psi_complete_bytes.
+  assert (Hat0 : at_ (new_iter (ptr :: P')) (ptr :: P')) by (split; [cbn; lia|reflexivity]).
+  rewrite (read_byte _ _ _ Hat0). cbn [ibs ioff new_iter psi_walk]. unfold ilen. cbn [ibs].
+  destruct (0 + 1 + ptr <? Z.of_nat (length (ptr :: P'))) eqn:E; [lia|]. cbn [negb ioff ibs].
+  destruct (0 + 1 + ptr <=? Z.of_nat (length (ptr :: P'))) eqn:E2; [lia|reflexivity].
 Qed.
 
 (* ---------------- parseData on the packets of a whole PES unit ---------------- *)
@@ -346,17 +356,31 @@ Proof.
   apply psi_complete_whole; [lia|exact Hf|apply secs_framed, Hs].
 Qed.
 
-Lemma psi_unit_incomplete u P S' : psi_unit_ok SP u -> psi_unit_bytes u = P ++ S' ->
-  last_sec_start u < Z.of_nat (length P) < last_sec_end u -> is_psi_complete_bytes P = Ok false.
+Lemma inside_secs_spec : forall secs start L, inside_secs start secs L = true ->
+  exists front s back, secs = front ++ s :: back /\
+    start + Z.of_nat (length (concat (map sec_bytes front))) < L
+      < start + Z.of_nat (length (concat (map sec_bytes front))) + Z.of_nat (length (sec_bytes s)).
 Proof.
-  intros (Hp & Hf & _ & Hne & Hs) HU Hlen. unfold psi_unit_bytes, last_sec_start, last_sec_end in *.
-  destruct (exists_last Hne) as (front & lst & E). rewrite E in *.
-  rewrite removelast_last in Hlen. rewrite map_app in HU, Hlen. cbn [map] in HU, Hlen.
-  apply Forall_app in Hs. destruct Hs as [Hfr Hl]. inversion Hl as [|? ? Hl1 _]; subst.
-  pose proof (secs_framed _ Hfr) as F1.
-  pose proof (secs_framed _ (Forall_cons _ Hl1 (Forall_nil _))) as F2. cbn [map] in F2. inversion F2 as [|? ? F2' _]; subst.
-  apply (psi_complete_partial (su_ptr u) (su_fill u) (map sec_bytes front) (sec_bytes lst) (su_tail u) P S');
-    try assumption; lia.
+  induction secs as [|s r IH]; intros start L H; [discriminate|]. cbn [inside_secs] in H.
+  apply orb_true_iff in H. destruct H as [H|H].
+  - exists [], s, r. split; [reflexivity|]. cbn [map concat length]. lia.
+  - destruct (IH _ _ H) as (front & s' & back & -> & Hb). exists (s :: front), s', back. split; [reflexivity|].
+    cbn [map concat]. rewrite app_length. lia.
+Qed.
+
+Lemma psi_unit_incomplete u P S' : psi_unit_ok SP u -> psi_unit_bytes u = P ++ S' ->
+  psi_mid u (Z.of_nat (length P)) = true -> is_psi_complete_bytes P = Ok false.
+Proof.
+  intros (Hp & Hf & _ & Hne & Hs) HU Hmid. unfold psi_unit_bytes, psi_mid in *.
+  apply orb_true_iff in Hmid. destruct Hmid as [Hshort|Hin].
+  - apply (psi_complete_short (su_ptr u) _ P S' ltac:(lia) HU). lia.
+  - destruct (inside_secs_spec _ _ _ Hin) as (front & s & back & E & Hb). rewrite E in *.
+    rewrite map_app in HU. cbn [map] in HU. rewrite concat_app in HU. cbn [concat] in HU. rewrite <- !app_assoc in HU.
+    apply Forall_app in Hs. destruct Hs as [Hfr Hl]. pose proof (Forall_inv Hl) as Hl1.
+    pose proof (secs_framed _ Hfr) as F1.
+    pose proof (secs_framed _ (Forall_cons _ Hl1 (Forall_nil _))) as F2. cbn [map] in F2. pose proof (Forall_inv F2) as F2'.
+    apply (psi_complete_partial (su_ptr u) (su_fill u) (map sec_bytes front) (sec_bytes s)
+             (concat (map sec_bytes back) ++ repeat 255 (su_tail u)) P S'); try assumption; lia.
 Qed.
 
 Lemma flat_map_map {A B C} (f : B -> list C) (g : A -> B) l : flat_map f (map g l) = flat_map (fun a => f (g a)) l.
